@@ -14,7 +14,7 @@ D2 == D1 \cup { Mk("L", <<Mk("M", [k |-> v])>>) : v \in {SAB, Bin(<<1>>), Bool(T
          \cup { Mk("M", [k |-> Mk("L", <<v, v>>)]) : v \in {SAB, Bin(<<1>>), Bool(FALSE), Mk("BS", <<<<1>>>>)} }
 Universe == IF Depth = 0 THEN D0 ELSE IF Depth = 1 THEN D1 ELSE D2
 Kinds == {"put-input", "batchwrite-input", "get-output", "scan-output", "query-output", "update-input", "update-output", "delete-output",
-          "stale-get", "stale-scan", "ccf-item", "query-input-struct"}
+          "stale-get", "stale-scan", "ccf-item", "query-input-struct", "upsert-input", "upsert-native"}
 Key == [h |-> S1(107)]
 Probe(kind, v) == [op |-> "AliasProbe", c |-> "c1", t |-> T1, kind |-> kind, item |-> Key @@ [val |-> v], item2 |-> Key @@ [val |-> Str(<<110, 101, 119>>)]]
 Trace(kind, v) == << AddTable("c1", T1, "h", ""), Probe(kind, v), Get(T1, Key) >>
